@@ -256,12 +256,14 @@ pub fn check(case: &Case, env: &mut CaseEnv) -> Result<(), Failure> {
             let ranges = case.layout.batch_ranges(t.rows);
             let mut cs = vec![];
             e.columns(&mut cs);
-            let null_typed = cs.iter().any(|c| match t.cols.get(c) {
-                Some((_, cells)) => ranges.iter().any(|(lo, hi)| cells[*lo..*hi].iter().all(|x| x.is_null())),
-                None => true,
+            // ... in a partition that is longer than the streaming batch size (KF-null-typed-arithmetic-streaming)
+            let bs = case.layout.opts.batch_size;
+            let null_typed_streamed = cs.iter().any(|c| match t.cols.get(c) {
+                Some((_, cells)) => ranges.iter().any(|(lo, hi)| hi - lo > bs && cells[*lo..*hi].iter().all(|x| x.is_null())),
+                None => ranges.iter().any(|(lo, hi)| hi - lo > bs),
             });
-            if null_typed && env.kf_active("KF-agg-null-typed-partition") && !env.replay {
-                env.excluded("KF-null-typed-partition-operand");
+            if null_typed_streamed && env.kf_active("KF-null-typed-arithmetic-streaming") && !env.replay {
+                env.excluded("KF-null-typed-arithmetic-streaming");
                 continue;
             }
         }
